@@ -135,7 +135,7 @@ def build_payload(item, ver):
         return kdrv.locate()[1]
     if k == 'unsupported':
         return None
-    if k == 'raw':
+    if k in ('raw', 'oracle_ro', 'oracle_kp', 'oracle_derive'):
         return RAW[b[1]]()[1]
     raise KeyError(k)
 
@@ -172,8 +172,14 @@ def cb(b):
     return 'true' if b else 'false'
 
 
-def coq_body(b):
+def coq_body(b, ok=False):
     k = b[0]
+    if k == 'oracle_ro':
+        return '(BOpaqueRO %s)' % cb(ok)
+    if k == 'oracle_kp':
+        return '(BKeyPair %s [] [])' % cb(ok)
+    if k == 'oracle_derive':
+        return '(BDerive %s 2 [])' % cb(ok)
     if k == 'create':
         _, sym, unsup, a, l, m, lok, names, groups, sens = b
         return '(BCreate %s %s %s %s %s %s %s %s %s)' % (cb(sym), cb(unsup), cb(a), cb(l), cb(m), cb(lok), czl(names), czl(groups), copt(sens, cb))
@@ -205,8 +211,15 @@ def coq_bid(h):
     return 'None' if h is None else '(Some %s)' % czl(bytes.fromhex(h))
 
 
-def coq_item(it):
-    return '(Build_item %d %s %s)' % (OP[it['op']].value, coq_bid(it['bid']), coq_body(it['b']))
+def coq_item(it, ok=False):
+    return '(Build_item %d %s %s)' % (OP[it['op']].value, coq_bid(it['bid']), coq_body(it['b'], ok))
+
+
+def coq_items(req, obs):
+    """Items as Coq terms; an oracle item carries the success flag the implementation reported for it.  Under the
+    RESPONSE_TOO_LARGE substitution the per-item answers are lost: the trace tells how many items ran, not how."""
+    oks = [r['ok'] for r in obs['results']]
+    return '; '.join(coq_item(i, oks[k] if k < len(oks) else False) for k, i in enumerate(req['items']))
 
 
 def coq_store(st):
@@ -225,7 +238,7 @@ def coq_case(pre, req, now, obs):
     res = '; '.join('(%d, %s, %s)' % (OP[r['op']].value, coq_bid(r['bid']), cb(r['ok'])) for r in obs['results'])
     tr = '; '.join('(%s, %s, %s)' % (cb(c), cb(d), copt(p)) for c, d, p in obs['trace'])
     return '(Build_kcase %s %s [%s] %s [%s] [%s] %s)' % (
-        coq_store(pre), coq_header(req, now), '; '.join(coq_item(i) for i in req['items']),
+        coq_store(pre), coq_header(req, now), coq_items(req, obs),
         copt(obs['err'], str), res, tr, coq_store(obs['final']))
 
 
@@ -239,7 +252,7 @@ def coq_scase(pre, req, now, obs, max_size):
     else:
         ans = '(OResults [%s])' % '; '.join('(%d, %s, %s)' % (OP[r['op']].value, coq_bid(r['bid']), cb(r['ok'])) for r in obs['results'])
     return '(Build_scase %s %s [%s] %s %s %s %s)' % (
-        coq_store(pre), coq_header(req, now), '; '.join(coq_item(i) for i in req['items']),
+        coq_store(pre), coq_header(req, now), coq_items(req, obs),
         copt(max_size), cz(obs['size'] or 0), ans, coq_store(obs['final']))
 
 
@@ -331,8 +344,20 @@ for _n, _f in RAW_SETUP:
     RAW[_n] = _f
 
 
+RAW_READ_ONLY = {n for n in RAW if n.split('_')[0] in ('encrypt', 'decrypt', 'sign', 'sigver', 'mac', 'locate', 'get', 'discover', 'query')}
+RAW_KEYPAIR = {n for n in RAW if n.startswith('ckp')}
+RAW_DERIVE = {n for n in RAW if n.startswith('derive_') and n != 'derive_base'}
+
+
 def I_raw(name):
-    return it(RAW[name]()[0].name, ('raw', name))
+    """('raw', name): judged by the direct oracle only.  ('oracle_ro' | 'oracle_kp' | 'oracle_derive', name): also in the
+    correspondence - the model takes the item's success flag from the implementation and predicts its effects."""
+    kind = 'oracle_ro' if name in RAW_READ_ONLY else 'oracle_kp' if name in RAW_KEYPAIR else 'oracle_derive' if name in RAW_DERIVE else 'raw'
+    return it(RAW[name]()[0].name, (kind, name))
+
+
+def in_model(r):
+    return all(i['b'][0] != 'raw' for i in r['items'])
 
 
 def det_key_pair(real):
@@ -665,7 +690,7 @@ def canon(x):
 
 # ---------------------------------------------------------------------------------------------- direct oracles
 def creating(itm):
-    return itm['b'][0] in ('create', 'register') or (itm['b'][0] == 'raw' and itm['op'] in ('CREATE', 'REGISTER', 'CREATE_KEY_PAIR', 'DERIVE_KEY'))
+    return itm['b'][0] in ('create', 'register') or (itm['b'][0] in ('raw', 'oracle_kp', 'oracle_derive') and itm['op'] in ('CREATE', 'REGISTER', 'CREATE_KEY_PAIR', 'DERIVE_KEY'))
 
 
 def oracle(ctx, history, req_, pre_dump, obs, twin_factory=None, extra=None):
@@ -842,9 +867,16 @@ class Runner:
                 return t
             hits += oracle(ctx, self.raw_prefix + done, r, None, obs, twin_at_same_point)
             ctx.case_seen(canon(['sweep', r, [(x['ok'], x['reason']) for x in obs['results']]]), nontrivial=True)
-            ctx.count('oracle_only.requests')
+            if in_model(r):
+                self.cases.append(coq_case(abstract_store(obs['dump_before']), r, im.now, obs))
+                self.meta.append({'label': label + ':oracle-flag', 'history_after_setup': self.raw_prefix + list(done), 'request': r,
+                                  'impl': {'err': obs['err'], 'results': [(x['op'], x['bid'], x['ok'], x['reason']) for x in obs['results']],
+                                           'trace': obs['trace'], 'final': obs['final']}})
+                ctx.count('sweep.in_correspondence')
+            else:
+                ctx.count('oracle_only.requests')
             for x in obs['results']:
-                ctx.count('oracle_only.item.%s.%s' % (x['op'], 'ok' if x['ok'] else x['reason']))
+                ctx.count('sweep.item.%s.%s' % (x['op'], 'ok' if x['ok'] else x['reason']))
             done.append(r)
         return hits
 
@@ -937,12 +969,12 @@ def gen_all(run, ctx):
     succ_same = lambda t: [I_modify(t, 'AName', 0, 51), I_delete(t, 'AName', 0), I_activate(t), I_revoke(t, True)]
     fl = [i for i in M]
     rng.shuffle(fl)
-    n_f = 60 if quick else len(fl)
+    n_f = 45 if quick else len(fl)
     for i in fl[:n_f]:
         t = i['b'][1] if i['b'][0] not in ('create', 'register', 'readonly', 'unsupported') else None
         tt = t if isinstance(t, int) and t in (1, 9, 7, 5) else 1
         s_same = rng.choice(succ_same(tt))
-        for ver in ([(1, 2), (2, 0)] if quick else VERSIONS):
+        for ver in ([(1, 2), (2, 0)] if quick else [(1, 2), (1, 4), (2, 0)]):
             for opt in ['CONTINUE', None]:
                 run.history([req([i, s_same, I_create(names=[52])], ver=ver, opt=opt)], 'mix:F S S')
                 run.history([req([I_create(names=[53]), i, s_same], ver=ver, opt=opt)], 'mix:S F S')
@@ -953,11 +985,11 @@ def gen_all(run, ctx):
         for creator in [I_create(names=[61]), I_register(7), I_register(8), I_create(names=[62, 62])]:
             for mid in [[], [I_get(4)], [I_create(len_ok=False)], [I_register(2)], [I_destroy(2)], [I_unsup()]]:
                 for use in [I_get(), I_activate(), I_destroy(), I_modify(None, 'AName', 0, 63), I_delete(None, 'AName', None), I_revoke(None, True), I_set(None, 'ASens', 1)]:
-                    if quick and rng.random() < 0.6:
+                    if quick and rng.random() < 0.7:
                         continue
                     run.history([req([creator] + mid + [use, I_get(None, 'GET_ATTRIBUTES')], ver=ver, opt='CONTINUE', user=rng.choice(users))], 'placeholder')
     # (5) seeded random batches and histories
-    n_hist = 60 if quick else 600
+    n_hist = 50 if quick else 500
     for h in range(n_hist):
         reqs = []
         for _ in range(rng.randint(1, 4)):
@@ -997,7 +1029,7 @@ def gen_sweep(run, ctx):
                 continue
             run.sweep([req([I_raw(n), rng.choice(committing), I_get(1, 'GET_ATTRIBUTES')], ver=ver, opt='CONTINUE')], 'sweep:F S R')
             run.sweep([req([rng.choice(committing), I_raw(n), rng.choice(committing)], ver=ver, opt=rng.choice([None, 'CONTINUE']))], 'sweep:S F S')
-    for _ in range(30 if quick else 600):
+    for _ in range(20 if quick else 400):
         reqs = []
         for _ in range(rng.randint(1, 3)):
             n = rng.randint(1, 4)
@@ -1031,7 +1063,11 @@ def describe(run, i):
 def find_failing_input(run, ctx, bad):
     """A disagreement is not yet a violation: probe the disagreeing requests with the direct oracle in the
     contexts where a hidden effect would surface (a later item that commits, a later item that reads)."""
-    for i in bad[:10]:
+    def suspicion(i):       # a session left dirty, then a failed item, then the rest
+        tr = run.meta[i]['impl']['trace']
+        res = run.meta[i]['impl']['results']
+        return (0 if any(d for _, d, _ in tr) else 1, 0 if any(not x[2] for x in res) else 1, i)
+    for i in sorted(bad, key=suspicion)[:12]:
         m = run.meta[i]
         r = m['request']
         for tail in ([I_create(names=[71])], [I_get(1, 'GET_ATTRIBUTES'), I_modify(1, 'AName', 0, 72)], [I_ro('LOCATE'), I_create()]):
@@ -1070,6 +1106,7 @@ def run(ctx):
     ctx.prove('props/C08.v', extra_targets=['theories/Batch/Cases.v', 'theories/Batch/SessionCases.v'])
     runner = Runner(ctx)
     gen_all(runner, ctx)
+    gen_sweep(runner, ctx)
     ctx.log('%d requests processed by the implementation' % len(runner.cases))
     bad = ctx.run_cases('batch', HEADER, runner.cases, 'check_case',
                         what='Batch/Store.v process vs KmipEngine.process_request: error | (operation, batch id, success) list, per-item '
@@ -1079,7 +1116,6 @@ def run(ctx):
         ctx.disagreement('batch', describe(runner, i), model_says=says, impl_says=runner.meta[i]['impl'])
     if bad:
         find_failing_input(runner, ctx, bad)
-    gen_sweep(runner, ctx)
     gen_wire(runner, ctx)
     sbad = ctx.run_cases('session', SHEADER, runner.scases, 'check_scase',
                          what='Batch/Session.v session_answer vs KmipSession._handle_message_loop: error | too large | results, final store')
